@@ -1027,6 +1027,11 @@ func (e LangError) Error() string {
 }
 
 func (p *Parser) posErr(pos Pos, format string, args ...any) {
+	if pos.IsRecovered() {
+		// The token this error would point at was itself missing and recovered
+		// via [RecoverErrors]; report the current position instead of "?:?".
+		pos = p.pos
+	}
 	// for i, arg := range args {
 	// 	if arg, ok := arg.(fmt.Stringer); ok && arg != _EOF {
 	// 		args[i] = quotedToken(arg)
